@@ -532,7 +532,7 @@ func (w *c01world) sweep(after string) {
 
 func c01Variant(r *sim.Rand) string {
 	// weights: the store-backed and lease variants have the larger state spaces
-	i := r.Weighted(10, 12, 6, 5, 5, 12, 14, 7, 4, 5, 8, 5, 7)
+	i := r.Weighted(10, 12, 5, 8, 4, 12, 14, 7, 4, 5, 7, 5, 7)
 	return pdVariants[i]
 }
 
@@ -581,6 +581,17 @@ func c01Gen(r *sim.Rand, tier string) *sim.Case {
 		return 0
 	}
 	faultsOn := caps.Faults && r.P(60)
+	fw, relw := 8, 14
+	if conc > 1 && faultsOn && r.P(50) {
+		relw = 5
+		// concurrent callers for the same few subscribers around a failing save:
+		// the window in which one caller's rollback can hit another caller's result
+		if nsub > 2 {
+			nsub = 2
+			cs.Knobs["nsub"] = 2
+		}
+		fw = 16
+	}
 	for i := 0; i < n; i++ {
 		cl := int64(0)
 		if conc > 1 {
@@ -588,8 +599,8 @@ func c01Gen(r *sim.Rand, tier string) *sim.Case {
 		}
 		s := int64(r.N(nsub))
 		v := int64(r.N(64))
-		switch r.Weighted(30, 14, b(caps.RelByValue, 4), b(caps.Lease, 8), b(caps.Lookup, 8), b(caps.LookupVal, 3), b(caps.Specific, 4), b(caps.Set, 3),
-			b(caps.Lease, 11), b(caps.Tick && conc <= 1, 3), b(caps.Reload && conc <= 1, 4), b(conc <= 1, 5), b(faultsOn, 8)) {
+		switch r.Weighted(30, relw, b(caps.RelByValue, 4), b(caps.Lease, 8), b(caps.Lookup, 8), b(caps.LookupVal, 3), b(caps.Specific, 4), b(caps.Set, 3),
+			b(caps.Lease, 11), b(caps.Tick && conc <= 1, 3), b(caps.Reload && conc <= 1, 4), b(conc <= 1, 5), b(faultsOn, fw)) {
 		case 0:
 			cs.Ops = append(cs.Ops, sim.Op{K: "alloc", A: []int64{cl, s}})
 		case 1:
@@ -615,7 +626,11 @@ func c01Gen(r *sim.Rand, tier string) *sim.Case {
 		case 11:
 			cs.Ops = append(cs.Ops, sim.Op{K: "sweep", A: []int64{0}})
 		case 12:
-			cs.Ops = append(cs.Ops, sim.Op{K: "fail", A: []int64{cl, int64(r.N(pfNum)), int64(r.N(3))}})
+			kind := int64(r.N(pfNum))
+			if r.P(40) {
+				kind = pfPut
+			}
+			cs.Ops = append(cs.Ops, sim.Op{K: "fail", A: []int64{cl, kind, int64(r.N(3))}})
 		}
 	}
 	return cs
